@@ -413,7 +413,8 @@ class Weaver:
             r = s.find_item('struct', it['name'])
             attrs = [a for a in r['attrs'] if re.match(r'#\[(derive|repr)', a)]
             # Debug derive needs Debug on fields; drop Debug to avoid needing fmt
-            attrs = [re.sub(r'\bDebug\s*,\s*|,\s*Debug\b', '', a) for a in attrs]
+            attrs = [re.sub(r'\bDebug\s*,\s*|,\s*Debug\b|\bDebug\b', '', a) for a in attrs]
+            attrs = [a for a in attrs if not re.match(r'#\[derive\(\s*\)\]', a)]
             txt = '\n'.join(attrs) + '\n' + pub_fields(re.sub(r'^pub\s*\([^)]*\)', 'pub', r['text']))
             if not txt.lstrip().startswith('#') and not txt.lstrip().startswith('pub'):
                 pass
@@ -424,7 +425,8 @@ class Weaver:
             s = self.src(it['file'])
             r = s.find_item('enum', it['name'])
             attrs = [a for a in r['attrs'] if re.match(r'#\[(derive|repr)', a)]
-            attrs = [re.sub(r'\bDebug\s*,\s*|,\s*Debug\b', '', a) for a in attrs]
+            attrs = [re.sub(r'\bDebug\s*,\s*|,\s*Debug\b|\bDebug\b', '', a) for a in attrs]
+            attrs = [a for a in attrs if not re.match(r'#\[derive\(\s*\)\]', a)]
             body = '\n'.join(l for l in r['text'].split('\n') if not l.strip().startswith('//'))
             self.emit('\n'.join(attrs) + '\n' + body, ('repo', it['file'], r['line_first']))
             self.funcs.append(dict(kind='enum', name=it['name'], file=it['file'], lines=[r['line_first'], r['line_last']], sha256=r['sha256']))
